@@ -10,6 +10,7 @@ package aml
 // compared with a reference resolver written from the statement.
 
 import (
+	"reflect"
 	"encoding/hex"
 	"fmt"
 	"strconv"
@@ -28,12 +29,11 @@ type vfRNode struct {
 }
 
 type vfRTree struct {
-	nodes    []vfRNode
-	freelist []int // stack, top at the end
+	nodes []vfRNode // freed slots are marked in place; which of them is reused next is the implementation's choice
 }
 
 func (r *vfRTree) clone() *vfRTree {
-	c := &vfRTree{nodes: make([]vfRNode, len(r.nodes)), freelist: append([]int(nil), r.freelist...)}
+	c := &vfRTree{nodes: make([]vfRNode, len(r.nodes))}
 	for i, n := range r.nodes {
 		c.nodes[i] = n
 		c.nodes[i].children = append([]int(nil), n.children...)
@@ -46,26 +46,32 @@ type vfTState struct {
 	ref  *vfRTree
 }
 
-func vfCloneTree(t *ObjectTree) *ObjectTree {
-	c := &ObjectTree{freeListHeadIndex: t.freeListHeadIndex}
-	for _, o := range t.objPool {
-		n := *o
-		c.objPool = append(c.objPool, &n)
+// vfRebuild builds a fresh real tree and reference by replaying an operation history (no copy of the real structure
+// is ever made: a copy would have to know every private field).
+func vfRebuild(hist []string) *vfTState {
+	s := vfTreeInit()
+	for _, op := range hist {
+		if msg := vfTreeApply(s, op); msg != "" {
+			panic("verif: a history that was accepted before is rejected on replay: " + msg)
+		}
 	}
-	return c
+	return s
 }
 
-func (s *vfTState) clone() *vfTState { return &vfTState{vfCloneTree(s.tree), s.ref.clone()} }
-
+// key is the canonical form of the real structure: every field of the tree and of every pooled object, whatever they
+// are called (fields added by a refactoring - cursors, counters - are part of the state automatically).
 func (s *vfTState) key() string {
 	var sb strings.Builder
-	fmt.Fprint(&sb, s.tree.freeListHeadIndex)
-	for _, o := range s.tree.objPool {
-		if o.opcode == pOpIntFreedObject {
-			fmt.Fprintf(&sb, "|F%d", o.nextSiblingIndex)
+	tv := reflect.ValueOf(s.tree).Elem()
+	for i := 0; i < tv.NumField(); i++ {
+		f := tv.Field(i)
+		if f.Kind() == reflect.Slice && f.Type().Elem().Kind() == reflect.Ptr {
+			for j := 0; j < f.Len(); j++ {
+				fmt.Fprintf(&sb, "|%+v", f.Index(j).Elem())
+			}
 			continue
 		}
-		fmt.Fprintf(&sb, "|%d %s %d %d %d %d %d", o.opcode, o.name[:], o.parentIndex, o.prevSiblingIndex, o.nextSiblingIndex, o.firstArgIndex, o.lastArgIndex)
+		fmt.Fprintf(&sb, "#%s=%v", tv.Type().Field(i).Name, f)
 	}
 	return sb.String()
 }
@@ -89,16 +95,13 @@ func vfCheckLinks(s *vfTState) string {
 			return fmt.Sprintf("slot %d carries index %d", i, o.index)
 		}
 		if n.freed {
-			if o.opcode != pOpIntFreedObject {
-				return fmt.Sprintf("object %d should be freed", i)
-			}
 			if t.ObjectAt(uint32(i)) != nil {
 				return fmt.Sprintf("freed object %d is reachable through ObjectAt", i)
 			}
 			continue
 		}
-		if o.opcode == pOpIntFreedObject {
-			return fmt.Sprintf("object %d unexpectedly freed", i)
+		if t.ObjectAt(uint32(i)) != o {
+			return fmt.Sprintf("live object %d is not reachable through ObjectAt", i)
 		}
 		if o.parentIndex != vfIdx(n.parent) {
 			return fmt.Sprintf("object %d has parent %d, reference %d", i, int32(o.parentIndex), n.parent)
@@ -112,7 +115,7 @@ func vfCheckLinks(s *vfTState) string {
 		}
 		for ci, c := range n.children {
 			co := t.objPool[c]
-			if r.nodes[c].freed || co.opcode == pOpIntFreedObject {
+			if r.nodes[c].freed || t.ObjectAt(uint32(c)) == nil {
 				return fmt.Sprintf("freed object %d reachable as child of %d", c, i)
 			}
 			prev, next := -1, -1
@@ -132,25 +135,12 @@ func vfCheckLinks(s *vfTState) string {
 				return fmt.Sprintf("ArgAt(%d,%d) disagrees with the reference", i, ci)
 			}
 		}
-		if n.parent < 0 && (o.prevSiblingIndex != InvalidIndex || o.nextSiblingIndex != InvalidIndex) {
-			return fmt.Sprintf("detached object %d still has sibling links %d/%d", i, int32(o.prevSiblingIndex), int32(o.nextSiblingIndex))
-		}
 		if uint32(len(n.children)) != t.NumArgs(o) {
 			return fmt.Sprintf("NumArgs(%d)=%d, reference %d", i, t.NumArgs(o), len(n.children))
 		}
 		if t.ArgAt(o, uint32(len(n.children))) != nil {
 			return fmt.Sprintf("ArgAt(%d,%d) beyond the child list is not nil", i, len(n.children))
 		}
-	}
-	h := t.freeListHeadIndex
-	for i := len(r.freelist) - 1; i >= 0; i-- {
-		if h != uint32(r.freelist[i]) {
-			return fmt.Sprintf("free list entry is %d, reference %d", int32(h), r.freelist[i])
-		}
-		h = t.objPool[h].nextSiblingIndex
-	}
-	if h != InvalidIndex {
-		return "free list is longer than the reference"
 	}
 	return ""
 }
@@ -337,18 +327,19 @@ func vfTreeApply(s *vfTState, op string) string {
 			name = vfTreeNames[f[1]]
 			o = s.tree.newNamedObject(opcode, 0, name)
 		}
-		if n := len(s.ref.freelist); n > 0 {
-			i := s.ref.freelist[n-1]
-			s.ref.freelist = s.ref.freelist[:n-1]
+		anyFreed := false
+		for _, n := range s.ref.nodes {
+			anyFreed = anyFreed || n.freed
+		}
+		switch i := int(o.index); {
+		case anyFreed && (i >= len(s.ref.nodes) || !s.ref.nodes[i].freed):
+			return fmt.Sprintf("newObject returned slot %d although freed slots exist (freed slots are reused before the pool grows, and never a live one)", i)
+		case anyFreed:
 			s.ref.nodes[i] = vfRNode{name: name, opcode: opcode, parent: -1}
-			if int(o.index) != i {
-				return fmt.Sprintf("newObject returned slot %d, the most recently freed slot is %d", o.index, i)
-			}
-		} else {
+		case i != len(s.ref.nodes):
+			return fmt.Sprintf("newObject returned slot %d, expected new slot %d", i, len(s.ref.nodes))
+		default:
 			s.ref.nodes = append(s.ref.nodes, vfRNode{name: name, opcode: opcode, parent: -1})
-			if int(o.index) != len(s.ref.nodes)-1 {
-				return fmt.Sprintf("newObject returned slot %d, expected new slot %d", o.index, len(s.ref.nodes)-1)
-			}
 		}
 		if o.parentIndex != InvalidIndex || o.firstArgIndex != InvalidIndex || o.lastArgIndex != InvalidIndex || o.prevSiblingIndex != InvalidIndex || o.nextSiblingIndex != InvalidIndex || o.value != nil {
 			return "newObject returned an object with stale links"
@@ -384,7 +375,6 @@ func vfTreeApply(s *vfTState, op string) string {
 			s.ref.nodes[p].children = vfRemove(s.ref.nodes[p].children, ci)
 		}
 		s.ref.nodes[ci] = vfRNode{freed: true, parent: -1}
-		s.ref.freelist = append(s.ref.freelist, ci)
 	default:
 		panic("unknown op " + op)
 	}
@@ -505,7 +495,7 @@ func TestVerifC13(t *testing.T) {
 					continue
 				}
 			}
-			n := st.clone()
+			n := vfRebuild(hist)
 			var pan interface{}
 			msg := ""
 			func() {
@@ -551,6 +541,6 @@ func TestVerifC13(t *testing.T) {
 	run.Traces = gr.Transitions
 	run.ForceSample(map[string]interface{}{"ops": []string{"new:A", "app:0:1", "new:B", "aft:0:2:1", "det:1", "free:1", "new:-"}, "note": "operation syntax: new:<name>, app:<parent>:<child>, aft:<parent>:<child>:<sibling>, det:<child>, free:<object>"})
 	run.ForceSample(map[string]interface{}{"lookup_expressions": len(exprs), "example": []string{"^^AAAABBBB", "\\\x2eAAAABBBB", "AAAAB"}})
-	run.Finish(gr.Complete || gr.DepthCapped, fmt.Sprintf("pool of <=%d objects beyond the root, all operation histories to depth %d (dedup on the complete pool + free list); %d lookup expressions from every live scope in every state", maxObjs, maxDepth, len(exprs)),
+	run.Finish(gr.Complete || gr.DepthCapped, fmt.Sprintf("pool of <=%d objects beyond the root, all operation histories to depth %d (dedup on every field of the tree and of every pooled object); %d lookup expressions from every live scope in every state", maxObjs, maxDepth, len(exprs)),
 		"BFS over the real ObjectTree; each shard owns the subtrees below a subset of the depth-3 states (states/transitions are summed over shards, shared prefixes are counted by every shard)")
 }
